@@ -377,15 +377,61 @@ func feedsSorted(ci ssa.CallInstruction) bool {
 		case *ssa.DebugRef:
 		case *ssa.Call:
 			name, _ := calleeFullName(x.Common())
-			if name != "slices.Sorted" {
+			switch name {
+			case "slices.Sorted":
+				n++
+			case "slices.Collect":
+				// keys := slices.Collect(maps.Keys(m)); slices.Sort(keys) before anything else reads keys
+				if !sortedBeforeUse(x) {
+					return false
+				}
+				n++
+			default:
 				return false
 			}
-			n++
 		default:
 			return false
 		}
 	}
 	return n > 0
+}
+
+// sortedBeforeUse: the slice value is handed to slices.Sort / sort.Strings, and that call dominates every other use.
+func sortedBeforeUse(v *ssa.Call) bool {
+	if v.Referrers() == nil {
+		return false
+	}
+	var sortCall ssa.Instruction
+	var others []ssa.Instruction
+	for _, ref := range *v.Referrers() {
+		if _, isDbg := ref.(*ssa.DebugRef); isDbg {
+			continue
+		}
+		if c, ok := ref.(*ssa.Call); ok {
+			name, _ := calleeFullName(c.Common())
+			if (name == "slices.Sort" || name == "sort.Strings") && sortCall == nil {
+				sortCall = c
+				continue
+			}
+		}
+		others = append(others, ref)
+	}
+	if sortCall == nil {
+		return false
+	}
+	for _, o := range others {
+		sb, ob := sortCall.Block(), o.Block()
+		if sb == ob {
+			if instrIndex(sortCall) > instrIndex(o) {
+				return false
+			}
+			continue
+		}
+		if !sb.Dominates(ob) {
+			return false
+		}
+	}
+	return true
 }
 
 // ---- C09.sorted: the sortedMap primitive ------------------------------------------------------
